@@ -11,6 +11,10 @@ From SK Require Import Lib.Base Model.Capa Proofs.CapaSpec Proofs.CapaDP Proofs.
 Open Scope Z_scope.
 
 From SK Require Import Proofs.ValidCuts.
+From Coq Require Import Reals.
+From SK Require Import Gen.KernelsR Proofs.RealLib Proofs.ScoreKernels.
+Close Scope R_scope.
+Open Scope Z_scope.
 Definition capa_code Sc Sp ac bc ap bp m M n := capa Sc Sp ac bc ap bp m M (m - 1) n.
 
 Section C03.
@@ -146,3 +150,19 @@ Theorem C03_only_valid_cuts_matter : forall (Sc1 Sc2 : nat -> nat -> list Z) (Sp
 Proof. exact @capa_ext_valid_maxlen. Qed.
 
 Print Assumptions C03_only_valid_cuts_matter.
+
+(* the statements below are over the real numbers *)
+Open Scope R_scope.
+(** ---- added: statements re-derived from the lemma files by tools/append_props.py ---- *)
+Theorem C03_builtin_l2_saving_nonneg : forall (S1 : nat -> R) (s e : nat), (s < e)%nat -> 0 <= l2_saving_R S1 s e.
+Proof. exact @l2_saving_nonneg. Qed.
+
+Theorem C03_builtin_l2_saving_subadditive : forall (S1 : nat -> R) (s k e : nat), (s < k)%nat -> (k < e)%nat -> l2_saving_R S1 s e <= l2_saving_R S1 s k + l2_saving_R S1 k e.
+Proof. exact @l2_saving_subadditive. Qed.
+
+Theorem C03_cost_derived_savings_subadditive : forall (Cf Co : nat -> nat -> R) (s k e : nat), Cf s e = Cf s k + Cf k e -> Co s k + Co k e <= Co s e -> saving Cf Co s e <= saving Cf Co s k + saving Cf Co k e.
+Proof. exact @saving_subadditive_of_parts. Qed.
+
+Print Assumptions C03_builtin_l2_saving_nonneg.
+Print Assumptions C03_builtin_l2_saving_subadditive.
+Print Assumptions C03_cost_derived_savings_subadditive.
